@@ -12,6 +12,8 @@ ASSUMPTIONS = [
     "the helper object that returns pool objects is registered under a fixed extra id that the histories never use; it is filtered from registered()",
     "serpent, json and msgpack are run; marshal does no auto-proxying and is not part of the property",
     "instances of registered classes (which inherit the class's marks) are not returned from methods in the histories",
+    "reachability, listing and proxying do not depend on the object's truth value, length, equality or hash: the model has no access to them; pool objects of all these shapes are run against it",
+    "every history uses classes of its own for its pool objects (serializer type replacements are process-global), so no earlier history can have taught the serializers a type",
 ]
 IMPORTS = "From V Require Import Model.Registry Harness.Cmp Harness.H16."
 NAMES = ["alpha", "beta", "Pyro.NameServer", "obj_0123456789abcdef0123456789abcdef"]
@@ -21,6 +23,8 @@ NOBJ, NCLS = 4, 2
 QUIRKS = ["unreg_id_keeps_daemon_mark", "unreg_obj_trusts_stale_id", "force_keeps_displaced_marks",
           "weak_double_register", "finalizer_unregisters_id"]
 
+# truthiness / comparison shapes of pool objects: what the object looks like to `if obj:` and `==`
+SHAPES = ["plain", "len0", "lenstate", "boolfalse", "eqhash"]
 _env = {}
 
 
@@ -30,14 +34,24 @@ def env():
         return _env
     import Pyro5.api as api
     from Pyro5 import serializers
-    pool = {}
+    class LazyPool(dict):
+        """slot -> pool object, created on first use by the current World"""
+        maker = None
+
+        def __missing__(self, n):
+            self[n] = self.maker(n)
+            return self[n]
+    pool = LazyPool()
 
     @api.expose
     class C16Obj(object):
+        """base of the pool objects; every history gets its own subclass per slot (see World.slot_class)"""
         def __init__(self, serial):
             self.serial = serial
+            self.calls = 0
 
         def whoami(self):
+            self.calls += 1
             return ["obj", self.serial]
 
         def get_metadata(self, objectId):
@@ -61,8 +75,10 @@ def env():
         def give(self, k):
             return pool[k]
 
-    serializers.SerializerBase.register_class_to_dict(C16Obj, lambda o: {"__class__": "C16Obj", "serial": o.serial})
-    for name in ("C16Obj", C16Obj.__module__ + ".C16Obj"):    # the second one: serpent's default class form
+    # (not for serpent: it looks converters up by isinstance in registration order, so a converter for the base class
+    #  would shadow the auto-proxy replacement of the per-history subclasses; serpent's default class form is handled below)
+    serializers.SerializerBase.register_class_to_dict(C16Obj, lambda o: {"__class__": "C16Obj", "serial": o.serial}, serpent_too=False)
+    for name in ("C16Obj", C16Obj.__module__ + ".C16Obj", "c16pool.C16Obj"):    # the latter two: serpent's default class form
         serializers.SerializerBase.register_dict_to_class(name, lambda cn, d: ("byvalue", d["serial"]))
     _env.update(pool=pool, Obj=C16Obj, classes=[C16K0, C16K1], Giver=C16Giver)
     return _env
@@ -70,7 +86,7 @@ def env():
 
 class World:
     """one daemon, a pool of objects and classes, and the bookkeeping needed to name what was reached"""
-    def __init__(self, ser):
+    def __init__(self, ser, shapes=()):
         from Pyro5 import config
         import Pyro5.core
         e = env()
@@ -87,10 +103,11 @@ class World:
         self.dobj = self.daemon.objectsById[self.DAEMON_NAME]
         self.serial = 0
         self.slot_of = {}
+        self.shapes = list(shapes)
+        self.cls = {}
         self.pool = e["pool"]
         self.pool.clear()
-        for n in range(NOBJ):
-            self.fresh(n)
+        self.pool.maker = self.fresh
         self.giver = e["Giver"]()
         self.daemon.register(self.giver, GIVER_ID)
         self.generated = []
@@ -99,10 +116,45 @@ class World:
         self.gp = None
         self.loc = self.daemon.locationStr
 
+    def slot_class(self, n):
+        """a class of its own per slot and history: the serializers' type replacements are process-global and never
+        removed, so an earlier history must not have taught them this type already"""
+        if n not in self.cls:
+            base = self.e["Obj"]
+            shape = self.shapes[n] if n < len(self.shapes) else "plain"
+            extra = {"plain": {},
+                     "len0": {"__len__": lambda o: 0},
+                     "lenstate": {"__len__": lambda o: o.calls},          # empty until its first successful call
+                     "boolfalse": {"__bool__": lambda o: False},
+                     "eqhash": {"__eq__": lambda o, other: isinstance(other, base), "__hash__": lambda o: 7}}[shape]
+            self.cls[n] = type("C16Obj", (base,), dict(extra, __module__="c16pool"))
+        return self.cls[n]
+
     def fresh(self, n):
         self.serial += 1
-        self.pool[n] = self.e["Obj"](self.serial)
+        obj = self.slot_class(n)(self.serial)
         self.slot_of[self.serial] = n
+        return obj
+
+    def forget_classes(self):
+        """best-effort hygiene: drop what the process-global registries remember about this history's classes"""
+        import serpent, Pyro5.server
+        from Pyro5 import serializers
+        for c in self.cls.values():
+            for f in (lambda: serpent.unregister_class(c),
+                      lambda: getattr(serializers.JsonSerializer, "_JsonSerializer__type_replacements").pop(c, None),
+                      lambda: getattr(serializers.MsgpackSerializer, "_MsgpackSerializer__type_replacements").pop(c, None)):
+                try:
+                    f()
+                except Exception:
+                    pass
+            try:
+                cache = vars(Pyro5.server).get("__exposed_member_cache")
+                for k in [k for k in cache if k[0] is c]:
+                    del cache[k]
+            except Exception:
+                pass
+        self.cls.clear()
 
     def close(self):
         from Pyro5 import config
@@ -113,6 +165,7 @@ class World:
             self.net.__exit__(None, None, None)
             self.daemon.close()
             self.pool.clear()
+            self.forget_classes()
             config.SERIALIZER, config.MAX_RETRIES, config.SERVERTYPE = self.old_ser, self.old_retries, self.old_st
             self.e["daemon"] = None
 
@@ -308,7 +361,7 @@ def do_event(w, ev):
         if ref() is not None:
             w.pool[n] = ref()
             return ev, ["err", "other:gc-blocked"]
-        w.fresh(n)
+        w.pool[n]            # (a new object takes the slot)
         return ev, ["gc", True]
     if k == "registered":
         if d.objectsById.get(w.DAEMON_NAME) is w.dobj:
@@ -325,7 +378,7 @@ def do_event(w, ev):
 
 def run_impl(case):
     """returns {"events": model-level events, "results": [...], "snaps": registry snapshot before the first and after every event}"""
-    w = World(case.get("ser", "serpent"))
+    w = World(case.get("ser", "serpent"), case.get("shapes", ()))
     try:
         mevs, results, snaps = [], [], [w.snapshot()]
         for ev in case["events"]:
@@ -431,6 +484,24 @@ def oracle(case, obs):
         elif DAEMON in before and after[DAEMON][0] != before[DAEMON][0] and not (k == "reg" and ev[2][0] == "daemon" and ev[3]):
             flag("daemon-object-replaced-silently", "%s: the daemon's own object was replaced without force" % at)
         # observations
+        if k in ("uri_obj", "proxy_obj"):
+            t = list(ev[1])
+            ids = holders(after, t)
+            if r[0] == "uri":
+                i = json.dumps(r[1])
+                if i not in after:
+                    flag("uri-names-unregistered-id", "%s: %s reports id %s, which is not registered (the object is %s)" % (
+                        at, "uriFor" if k == "uri_obj" else "proxyFor", r[1], "registered under %s" % ids if ids else "not registered"))
+                elif ids and i not in ids:
+                    flag("uri-names-other-object", "%s: the object is registered under %s but %s is reported, which reaches %s" % (at, ids, r[1], after[i][0]))
+                # (an unregistered object whose stale _pyroId has meanwhile been given to another object gets that
+                #  object's uri: tolerated, tests pin that unregister-by-id leaves _pyroId; counted in the distribution)
+            elif ids and not alias_excuse(t, after):
+                flag("uri-refused-for-registered-object", "%s: the object is registered under %s but got %s" % (at, ids, r))
+        elif k == "proxy_id":
+            i = json.dumps(ev[1])
+            if (r[0] == "uri") != (i in after):
+                flag("proxy-for-id-wrong", "%s: %s although the id is %sregistered" % (at, r, "" if i in after else "not "))
         if k == "call":
             i = json.dumps(ev[1])
             want = ["reached", after[i][0]] if i in after else ["err", "unknown"]
@@ -605,6 +676,8 @@ def gen_case(rng, length):
             evs.append(["unreg_obj", tgt()])
         elif r < 0.50:
             evs.append(["unreg_id", idref()])
+            if rng.random() < 0.4:       # what does the daemon say about the objects now?
+                evs.append([rng.choice(["uri_obj", "uri_obj", "proxy_obj"]), ["o", rng.choice(focus_o)]])
         elif r < 0.51:
             evs.append(["unreg_none"])
         elif r < 0.55:
@@ -621,7 +694,8 @@ def gen_case(rng, length):
             evs.append(["registered"])
     # look at everything at the end
     tail = [["registered"]] + [["return", o] for o in focus_o[:2]] + [["call", ["name", n]] for n in focus_n[:2]]
-    return {"ser": rng.choice(SERIALIZERS), "events": evs + rng.sample(tail, rng.randrange(len(tail) + 1))}
+    shapes = [rng.choice(SHAPES) if rng.random() < 0.6 else "plain" for _ in range(NOBJ)]
+    return {"ser": rng.choice(SERIALIZERS), "shapes": shapes, "events": evs + rng.sample(tail, rng.randrange(len(tail) + 1))}
 
 
 def gen_cases(ctx):
@@ -656,6 +730,20 @@ def targeted():
                                                ["unreg_obj", ["o", 0]], ["reg", ["o", 0], ["gen"], False, not weak], ["reg", ["o", 0], ["name", 1], False, False], ["return", 0]]})
         out.append({"ser": ser, "events": [["reg", ["c", 1], ["gen"], False, False], ["reg", ["c", 1], ["name", 0], False, False], ["reg", ["c", 1], ["gen"], False, False],
                                            ["call", ["gen", 0]], ["unreg_id", ["gen", 0]], ["reg", ["c", 1], ["name", 0], False, False], ["call", ["name", 0]], ["call", ["gen", 0]]]})
+        # truthiness never matters: every shape, strongly and weakly registered, is called, listed, proxied and returned
+        for shape in SHAPES:
+            out.append({"ser": ser, "shapes": [shape] * NOBJ,
+                        "events": [["reg", ["o", 0], ["name", 0], False, True], ["reg", ["o", 1], ["gen"], False, False], ["call", ["name", 0]], ["call", ["gen", 0]],
+                                   ["return", 0], ["return", 1], ["proxy_obj", ["o", 0]], ["uri_obj", ["o", 1]], ["registered"], ["call", ["name", 0]],
+                                   ["unreg_id", ["name", 0]], ["uri_obj", ["o", 0]], ["proxy_obj", ["o", 0]], ["return", 0], ["unreg_obj", ["o", 1]], ["uri_obj", ["o", 1]],
+                                   ["return", 1], ["reg", ["o", 1], ["name", 1], False, True], ["return", 1], ["gc", 1], ["call", ["name", 1]]]})
+        # a weak registration is the first thing the serializers ever hear of the object's type
+        out.append({"ser": ser, "events": [["reg", ["o", 3], ["gen"], False, True], ["return", 3], ["call", ["gen", 0]], ["uri_obj", ["o", 3]]]})
+        # what uriFor / proxyFor say after unregistration by id and by object, and after the id went to another object
+        out.append({"ser": ser, "events": [["reg", ["o", 0], ["name", 0], False, False], ["reg", ["c", 0], ["name", 1], False, False], ["uri_obj", ["o", 0]], ["unreg_id", ["name", 0]],
+                                           ["uri_obj", ["o", 0]], ["proxy_obj", ["o", 0]], ["uri_id", ["name", 0]], ["proxy_id", ["name", 0]], ["unreg_id", ["name", 1]],
+                                           ["uri_obj", ["c", 0]], ["proxy_obj", ["c", 0]], ["reg", ["o", 1], ["name", 0], False, False], ["uri_obj", ["o", 0]], ["uri_obj", ["o", 1]],
+                                           ["unreg_obj", ["o", 1]], ["uri_obj", ["o", 1]], ["uri_obj", ["o", 0]]]})
         # generated ids with force: nothing else is displaced
         out.append({"ser": ser, "events": [["reg", ["o", 0], ["name", 0], False, False], ["reg", ["o", 1], ["gen"], True, False], ["reg", ["o", 2], ["gen", 1], True, True],
                                            ["registered"], ["call", ["name", 0]], ["call", ["gen", 0]], ["call", ["gen", 1]], ["return", 0], ["return", 1], ["return", 2]]})
@@ -673,6 +761,8 @@ def execute(ctx, cases, model_ok, res, quirks):
         res.seen(case, nontrivial(case, obs))
         res.count("len_%02d" % min(len(case["events"]), 20))
         res.count("ser:" + case.get("ser", "serpent"))
+        for sh in case.get("shapes", []):
+            res.count("shape:" + sh)
         for ev, r in zip(obs["events"], obs["results"]):
             res.count("%s:%s" % (ev[0], r[0] if r[0] != "err" else "err-" + str(r[1]).split(":")[0]))
         for sig, what in oracle(case, obs):
@@ -698,7 +788,8 @@ def run(ctx, model_ok=True):
     res.rule = ("seeded random histories (2..16 events + a closing look) over a pool of %d objects and %d classes, ids = the daemon's name, %d explicit names, "
                 "generated ids (also not-yet-generated ones), truthy non-string and empty ids; events register (force/weak flags), unregister by object / id / None, "
                 "uriFor, proxyFor, a client call to an id, a remote method returning a pool object (followed by a call through the proxy that arrives), "
-                "dropping the last reference to a pool object, registered(); serializer serpent/json/msgpack per history; "
+                "dropping the last reference to a pool object, registered(); serializer serpent/json/msgpack per history; every pool slot has a class of its own per history and a "
+                "truthiness shape (plain, __len__ 0, __len__ depending on state, __bool__ False, custom __eq__/__hash__); uriFor/proxyFor questions follow unregister-by-id; "
                 "non-trivial = at least two successful registrations/calls/returns/collections; distinct = distinct case hash" % (NOBJ, NCLS, len(NAMES)))
     res.samples = cases[-3:] + cases[:2]
     return res
@@ -724,14 +815,14 @@ def shrink(case, sig):
         budget -= 1
         trial = evs[:i] + evs[i + 1:]
         try:
-            c2 = {"ser": case.get("ser", "serpent"), "events": trial}
+            c2 = {"ser": case.get("ser", "serpent"), "shapes": case.get("shapes", []), "events": trial}
             if any(s == sig for s, _ in oracle(c2, run_impl(c2))):
                 evs = trial
                 continue
         except Exception:
             pass
         i += 1
-    return {"ser": case.get("ser", "serpent"), "events": evs}
+    return {"ser": case.get("ser", "serpent"), "shapes": case.get("shapes", []), "events": evs}
 
 
 def replay(ctx, case):
